@@ -14,6 +14,12 @@ use crate::varc::AllocMode::{self, *};
 #[allow(deprecated)]
 type NoFast = arc_swap::strategy::test_strategies::FillFastSlots;
 
+/// The Option-container family, (preemptions, free placements of complete writer calls): one
+/// preemption with one placement and the null A-B-A (two placements, no preemption) on every
+/// change; one more placement each in the thorough tier.
+const PK_QUICK_OPT: [(u32, u32); 2] = [(1, 1), (0, 2)];
+const PK_THOROUGH_OPT: [(u32, u32); 2] = [(1, 2), (0, 3)];
+
 fn inst(
     name: String,
     props: &[&'static str],
@@ -28,6 +34,8 @@ fn inst(
         mode,
         body: Arc::new(body),
         k: 0,
+        pk_quick: Vec::new(),
+        pk_thorough: Vec::new(),
         p_with_k: None,
         thorough_only: false,
         expect_all_dead: true,
@@ -275,7 +283,8 @@ fn more_family<
                 move || h_more::opt_h::<S>(fill, rcu),
             );
             x.k = 3;
-            x.p_with_k = Some(1);
+            x.pk_quick = PK_QUICK_OPT.to_vec();
+            x.pk_thorough = PK_THOROUGH_OPT.to_vec();
             out.push(x);
         }
         out.push(inst(
